@@ -23,8 +23,16 @@ def main():
         rc0, _ = sh("PYTHONPATH=%s timeout 120 /venv/bin/python %s/demo.py" % (REPO, d))
         rc, out = sh("cd %s && patch -p1 --no-backup-if-mismatch < %s/patch.diff" % (REPO, d))
         if rc != 0:
-            summary[name] = {"error": "patch does not apply", "out": out[-300:]}
-            sh("cd %s && patch -R -p1 --no-backup-if-mismatch < %s/patch.diff" % (REPO, d))
+            summary[name] = {"error": "patch does not apply", "out": out[-300:], "detected": False, "concrete": False, "demo": (rc0, None),
+                             "first": ["patch does not apply to the current tree"]}
+            sh("cd %s && git checkout -- . && git clean -fdq" % REPO)
+            mp = os.path.join(d, "meta.json")
+            if os.path.exists(mp):
+                m = json.load(open(mp))
+                m.setdefault("confirmed", {}).update({"detected": False, "with_concrete_failing_input": False,
+                                                      "check_output": ["patch does not apply to the current tree"]})
+                json.dump(m, open(mp, "w"), indent=1)
+            print(name, summary[name], flush=True)
             continue
         try:
             rc1, _ = sh("PYTHONPATH=%s timeout 120 /venv/bin/python %s/demo.py" % (REPO, d))
